@@ -153,6 +153,30 @@ def mgrSpec (outs : List Json) (final : Json) : Except String Bool := do
   let ok2 := (waIds.flatten ++ wrIds.flatten).all (· ∈ ids)
   return ok1 && ok2
 
+/-- the abstract "map-based model" of the property statement: id ↦ latest record, as an association list
+(independent of `Mgr.set`: delete-then-cons, order irrelevant) -/
+def absStep (m : List (Id × Rec Id)) (op : Json) : Except String (List (Id × Rec Id)) := do
+  let a ← op.getArr?
+  match (← a[0]!.getStr?) with
+  | "add" =>
+    let id ← idOfJson a[1]!
+    let r : Rec Id := { id := id, strategy := stratOf (← a[2]!.getInt?), actuation := actOf (← a[3]!.getInt?),
+                        reconcile := .pending, uid := ← a[4]!.getStr?, gen := ← a[5]!.getInt? }
+    return (id, r) :: m.filter (fun p => p.1 ≠ id)
+  | "setrc" =>
+    let id ← idOfJson a[1]!
+    let rc := rcOf (← a[2]!.getInt?)
+    return m.map (fun p => if p.1 = id then (p.1, { p.2 with reconcile := rc }) else p)
+  | _ => return m
+
+/-- final table of the implementation = the abstract map (as a set of records) -/
+def mgrLatestSpec (ops : List Json) (final : Json) : Except String Bool := do
+  let mut m : List (Id × Rec Id) := []
+  for op in ops do m ← absStep m op
+  let tbl ← asList (← jget final "table")
+  let want := m.map (fun p => recToJson p.2)
+  return tbl.length == want.length && want.all (fun r => tbl.contains r)
+
 def handleMgr : Handler := fun i o => do
   let ops ← asList (← jget i "ops")
   let (m, outs) ← mgrRun ops
@@ -164,8 +188,9 @@ def handleMgr : Handler := fun i o => do
         Json.arr #[rcN rc, idsToJson (m.withReconcile rc)]).toArray))]
   let mj := Json.mkObj [("outs", Json.arr outs.toArray), ("final", final)]
   let oOuts ← asList (← jget o "outs")
-  let spec := match (do mgrSpec oOuts (← jget o "final")) with | .ok b => b | .error _ => false
-  let specM ← mgrSpec outs final
+  let spec := match (do return (← mgrSpec oOuts (← jget o "final")) && (← mgrLatestSpec ops (← jget o "final"))) with
+    | .ok b => b | .error _ => false
+  let specM := (← mgrSpec outs final) && (← mgrLatestSpec ops final)
   -- known-finding region: a uid query for an id that has no record at that point panics
   let names := ops.filterMap (fun op => match op.getArr? with | .ok a => (a[0]!.getStr?).toOption | _ => none)
   return { model := mj, agree := mj == o, spec := spec, specModel := specM,
